@@ -47,9 +47,14 @@ struct Plan {
     transit: bool,       // P sends to Q through V's transit gate instead of to V
     lat: bool,           // P's link has a latency of one unit (messages are in transit)
     abs: bool,           // restarts are requested with shutdow_and_restart_at(absolute time)
+    pre: bool,           // every restart request is preceded, in the same event, by a plain shutdown()
 }
 
-fn request(r: Option<u64>, abs: bool) {
+fn request(r: Option<u64>, abs: bool, pre: bool) {
+    if pre && r.is_some() {
+        // a restart time is given by the request that follows: the module restarts
+        current().shutdown();
+    }
     match r {
         None => current().shutdown(),
         Some(r) if abs => current().shutdow_and_restart_at(SimTime::now() + hs(r)),
@@ -83,11 +88,12 @@ impl Module for V {
                 let s1 = self.plan.s1;
                 let r1 = self.plan.r1;
                 let abs = self.plan.abs;
+                let pre = self.plan.pre;
                 let l = self.log.clone();
                 tokio::spawn(async move {
                     sleep_until(SimTime::from_duration(hs(s1))).await;
                     lg(&l, "V.req1".into());
-                    request(r1, abs);
+                    request(r1, abs, pre);
                 });
             } else {
                 schedule_at(Message::default().kind(90), SimTime::from_duration(hs(self.plan.s1)));
@@ -111,11 +117,11 @@ impl Module for V {
         match m.header().kind {
             90 => {
                 lg(&self.log, "V.req1".into());
-                request(self.plan.r1, self.plan.abs);
+                request(self.plan.r1, self.plan.abs, self.plan.pre);
             }
             91 => {
                 lg(&self.log, "V.req2".into());
-                request(self.plan.s2.unwrap().1, self.plan.abs);
+                request(self.plan.s2.unwrap().1, self.plan.abs, self.plan.pre);
             }
             k => {
                 lg(&self.log, format!("V.msg{k}"));
@@ -243,7 +249,7 @@ struct Facts {
 }
 
 fn plan_json(p: &Plan) -> Value {
-    json!({"s1": p.s1, "r1": p.r1, "by_task": p.by_task, "d1": p.d1, "d2": p.d2, "s2": p.s2.map(|(d, r)| json!([d, r])), "msgs": p.msgs, "transit": p.transit, "latency": p.lat, "absolute_restart_time": p.abs, "unit": "half seconds"})
+    json!({"s1": p.s1, "r1": p.r1, "by_task": p.by_task, "d1": p.d1, "d2": p.d2, "s2": p.s2.map(|(d, r)| json!([d, r])), "msgs": p.msgs, "transit": p.transit, "latency": p.lat, "absolute_restart_time": p.abs, "plain_shutdown_requested_first": p.pre, "unit": "half seconds"})
 }
 fn plan_from(v: &Value) -> Plan {
     Plan {
@@ -257,6 +263,7 @@ fn plan_from(v: &Value) -> Plan {
         transit: v["transit"].as_bool().unwrap(),
         lat: v["latency"].as_bool().unwrap_or(false),
         abs: v["absolute_restart_time"].as_bool().unwrap_or(false),
+        pre: v["plain_shutdown_requested_first"].as_bool().unwrap_or(false),
     }
 }
 
@@ -571,7 +578,7 @@ impl Module for DelayedTx {
     }
     fn handle_message(&mut self, m: Message) {
         if m.header().kind == 9 {
-            request(self.restart, false);
+            request(self.restart, false, false);
         }
     }
 }
@@ -742,7 +749,7 @@ impl Property for C09 {
     }
     fn rule(&self, tier: Tier) -> String {
         format!(
-            "timelines in half-second units: first shutdown at {{4,6}} x restart delay {{none,0,2,5}} x requested from {{handler, task}} x old task deadline {{2,4,6,7,11,30}} x new task sleep {{1,3}} x second shutdown {{none, +2 no restart, +2 restart 2, +3 restart 0}}              x message route {{to the victim, through a transit gate of the victim}} x {{direct, over a latency channel}} x restart requested by delay or (direct case) by absolute time x every set of up to {} arrival times from {{1,3,4,5,6,8,9,11,13,16}}; plus shutdown requested in each of 3 start stages x restart {{none,0,3}}; plus a module with a processing element that is down while a message arrives (the element must not see it); plus the restart of a module that declares no start stage (never started, not by the restart either); plus send_in issued before the shutdown for instants before, inside and after the down-time (restart none/3/9/30: a send falling due while its sender is down is dropped, the others arrive on time); plus a second shutdown requested by the restarted incarnation inside its restart event (each of its 3 start stages x restart {{none,0,2,5}}: the restart's stages complete, then inert, second reset, third incarnation on time); plus a module whose every incarnation runs one script (N tasks polled at start and after a sleep, N values drained by one task, N tasks spawned by a handler; N in {{1,2,3,59..63,70,128,129,200}}, restart delay {{0,1,1500}} ms): the restarted incarnation's log, relative to its start, must equal the fresh one's;              oracle: expectation computed from the plan: no callback, task step or timer of the victim inside an inert window, messages inside it dropped (also through its transit gate) and never delivered later, reset once per shutdown, start stages once at exactly the restart time, old tasks never resume, task captures dropped, peer receives exactly the echoes;              an event at exactly the shutdown/restart instant is a tie and accepted either way; non-trivial = timeline with a message or deadline strictly inside an inert window",
+            "timelines in half-second units: first shutdown at {{4,6}} x restart delay {{none,0,2,5}} x requested from {{handler, task}} x old task deadline {{2,4,6,7,11,30}} x new task sleep {{1,3}} x second shutdown {{none, +2 no restart, +2 restart 2, +3 restart 0}}              x message route {{to the victim, through a transit gate of the victim}} x {{direct, over a latency channel}} x restart requested by delay, (direct case) by absolute time, or by delay right after a plain shutdown() in the same event (a restart time was given: the module restarts) x every set of up to {} arrival times from {{1,3,4,5,6,8,9,11,13,16}}; plus shutdown requested in each of 3 start stages x restart {{none,0,3}}; plus a module with a processing element that is down while a message arrives (the element must not see it); plus the restart of a module that declares no start stage (never started, not by the restart either); plus send_in issued before the shutdown for instants before, inside and after the down-time (restart none/3/9/30: a send falling due while its sender is down is dropped, the others arrive on time); plus a second shutdown requested by the restarted incarnation inside its restart event (each of its 3 start stages x restart {{none,0,2,5}}: the restart's stages complete, then inert, second reset, third incarnation on time); plus a module whose every incarnation runs one script (N tasks polled at start and after a sleep, N values drained by one task, N tasks spawned by a handler; N in {{1,2,3,59..63,70,128,129,200}}, restart delay {{0,1,1500}} ms): the restarted incarnation's log, relative to its start, must equal the fresh one's;              oracle: expectation computed from the plan: no callback, task step or timer of the victim inside an inert window, messages inside it dropped (also through its transit gate) and never delivered later, reset once per shutdown, start stages once at exactly the restart time, old tasks never resume, task captures dropped, peer receives exactly the echoes;              an event at exactly the shutdown/restart instant is a tie and accepted either way; non-trivial = timeline with a message or deadline strictly inside an inert window",
             tier.pick(2, 3)
         )
     }
@@ -753,7 +760,7 @@ impl Property for C09 {
         ]
     }
     fn required_features(&self, _tier: Tier) -> Vec<&'static str> {
-        vec!["same_instant_tie", "message_inside_inert_window", "repeated_cycle", "request_from_task", "transit_gate_route", "latency_channel", "shutdown_in_start_stage", "restarted_vs_fresh_incarnation", "shutdown_requested_inside_the_restart_event", "delayed_send_due_while_sender_is_down", "restart_of_a_module_without_start_stages", "processing_element_of_a_shut_down_module"]
+        vec!["same_instant_tie", "message_inside_inert_window", "repeated_cycle", "request_from_task", "transit_gate_route", "latency_channel", "shutdown_in_start_stage", "restarted_vs_fresh_incarnation", "shutdown_requested_inside_the_restart_event", "delayed_send_due_while_sender_is_down", "restart_of_a_module_without_start_stages", "processing_element_of_a_shut_down_module", "plain_shutdown_and_restart_request_in_one_event"]
     }
     fn explore(&self, ctx: &mut Ctx) {
         if ctx.is_first_shard() {
@@ -840,15 +847,15 @@ impl Property for C09 {
                                     continue;
                                 }
                                 for transit in [false, true] {
-                                    for (lat, abs) in [(false, false), (true, false), (false, true)] {
-                                        if abs && r1.is_none() {
+                                    for (lat, abs, pre) in [(false, false, false), (true, false, false), (false, true, false), (false, false, true)] {
+                                        if (abs || pre) && r1.is_none() {
                                             continue;
                                         }
                                         for msgs in &sets {
                                             if !ctx.mine() {
                                                 continue;
                                             }
-                                            let plan = Plan { s1, r1, by_task, d1, d2, s2, msgs: msgs.clone(), transit, lat, abs };
+                                            let plan = Plan { s1, r1, by_task, d1, d2, s2, msgs: msgs.clone(), transit, lat, abs, pre };
                                             let mut f = Facts::default();
                                             ctx.begin(|| plan_json(&plan));
                                             let r = run_plan(&plan, &mut f);
@@ -874,6 +881,9 @@ impl Property for C09 {
                                             }
                                             if lat {
                                                 ctx.hit("latency_channel");
+                                            }
+                                            if pre {
+                                                ctx.hit("plain_shutdown_and_restart_request_in_one_event");
                                             }
                                             match r {
                                                 Ok(o) => {
